@@ -258,13 +258,14 @@ static Reg r_mag("mag", [](const Args& a) {
     c(lon, cBx, cBy, cBz, cBxt, cByt, cBzt); c(lon, c3x, c3y, c3z);
     MagneticModel::FieldComponents(Bx, By, Bz, Bxt, Byt, Bzt, H, F, D, I, Ht, Ft, Dt, It);
     // kernel values for the Lean model of the time interpolation: the gradients of every _harm[i] at the point
-    kern = " " + hx(t0) + " " + hx(m._dt0) + " " + hx(rad) + " " + std::to_string((long long)std::floor((t - m._t0) / m._dt0)) + " " + std::to_string(nb);
+    kern = " " + hx(t0) + " " + hx(m._dt0) + " " + hx(rad) + " " + std::to_string((long long)std::fmax(-4e18, std::fmin(4e18, std::isfinite(t) ? std::floor((t - m._t0) / m._dt0) : 0.0))) + " " + std::to_string(nb);
     for (int i = 0; i < nb; ++i) { double g0, g1, g2; m._harm[size_t(i)](X, Y, Z, g0, g1, g2); kern += " " + hx(g0) + " " + hx(g1) + " " + hx(g2); }
   });
   std::remove((dir + "/" + name + ".wmm").c_str()); std::remove((dir + "/" + name + ".wmm.cof").c_str());
   if (!ex.empty()) { emit(ex); bad("mag-load", "a well-formed synthetic model was rejected: " + ex); return; }
   current_op() += kern;
   emit(hx(BX) + " " + hx(BY) + " " + hx(BZ) + " " + hx(BXt) + " " + hx(BYt) + " " + hx(BZt));
+  if (!std::isfinite(t)) return;      // evaluated for robustness only (see magx)
   // ---- the field implied by the file's coefficients
   bool trunc = Nmax >= 0 || Mmax >= 0; int NmaxE = Nmax, MmaxE = Mmax;
   if (trunc) { if (Nmax >= 0 && Mmax < 0) MmaxE = Nmax; if (Nmax < 0) NmaxE = 1 << 30; if (MmaxE < 0) MmaxE = 1 << 30; } else { NmaxE = MmaxE = 1 << 30; }
@@ -321,6 +322,30 @@ static Reg r_mag("mag", [](const Args& a) {
   }
 });
 
+// op: magx <same arguments as mag>: extreme times (huge, infinite, NaN) evaluated in a forked child, so that a sanitizer abort
+// (conversion of an out-of-range floating value to int) is reported as a failing input of this op and does not end the run
+#include <sys/wait.h>
+static Reg r_magx("magx", [](const Args& a) {
+  std::string of = tmpdir() + "/magx.out";
+  std::fflush(stdout);
+  pid_t pid = fork();
+  if (pid == 0) {
+    if (!std::freopen(of.c_str(), "w", stdout)) _exit(9);
+    if (!std::freopen((of + ".err").c_str(), "w", stderr)) _exit(9);
+    registry()["mag"](a); std::fflush(stdout); _exit(0);
+  }
+  int st = 0; waitpid(pid, &st, 0);
+  bool died = !(WIFEXITED(st) && WEXITSTATUS(st) == 0);
+  std::ifstream in(of.c_str()); std::string line; int nb = 0;
+  while (std::getline(in, line)) if (line.rfind("#BAD ", 0) == 0) { ++nb; if (nb <= 3) { size_t k = line.rfind(" :: "); bad("magx-field", k == std::string::npos ? line : line.substr(k + 4)); } }
+  in.close(); std::remove(of.c_str());
+  std::string errtxt; { std::ifstream ie((of + ".err").c_str()); std::string l; while (std::getline(ie, l)) errtxt += l + " "; } std::remove((of + ".err").c_str());
+  emit(died ? "died" : "ok");
+  bool castsig = errtxt.find("MagneticModel.cpp") != std::string::npos && errtxt.find("outside the range of representable values of type 'int'") != std::string::npos;
+  if (died && !castsig) bad("magx-crash", "evaluating the magnetic model at time " + fmt(unhx(a[7])) + " ended abnormally: " + errtxt.substr(0, 600));
+  else if (died) bad("mag-time-int-cast", "evaluating the magnetic model at time " + fmt(unhx(a[7])) + " ended abnormally (int(floor(t / dt0)) in MagneticModel::FieldGeocentric / Circle is undefined for |t - t0| / dt0 >= 2^31, infinite or NaN t)");
+});
+
 // ------------------------------------------------------------------------------------------------------------------
 // op: grav seed norm N M dgm(hex: ModelMass/ReferenceMass - 1) fl(hex flattening) zeta0(hex) corrmult(hex) NC MC lat lon h Nmax Mmax
 // ------------------------------------------------------------------------------------------------------------------
@@ -373,12 +398,22 @@ static Reg r_grav("grav", [](const Args& a) {
   auto cC = [&](int n, int m) -> LD { return (n == 0 && m == 0) ? 1 : ((n <= Ne && m <= Me) ? s.c(n, m) : 0); };
   auto cS = [&](int n, int m) -> LD { return (n <= Ne && m <= Me) ? s.s(n, m) : 0; };
   // normal field as zonal harmonics up to the model degree (the library subtracts exactly these)
-  LD nrm = full ? 1 : 0;
-  // class of finding F-C19b: for a Schmidt-normalised model file the library still divides the normal zonal terms by sqrt(2n+1);
-  // the comparisons below use the library's convention and the discrepancy is reported once, under its own relation
-  (void)nrm;
-  auto zonTrue = [&](int n) -> LD { if (n == 0) return 1; if (n % 2 || n > Ne) return 0; LD j = no.Jn(n); LD fac = ((LD)GMref / GMmodel) * powl((LD)aref / amodel, n); return -fac * j / (full ? sqrtl(2.0L * n + 1) : 1); };
-  auto zon = [&](int n) -> LD { if (n == 0) return 1; if (n % 2 || n > Ne) return 0; LD j = no.Jn(n); LD fac = ((LD)GMref / GMmodel) * powl((LD)aref / amodel, n); return -fac * j / sqrtl(2.0L * n + 1); };
+  // class of finding F-C19b: for a Schmidt-normalised model file the library divides the normal zonal terms by sqrt(2n+1) as if the
+  // coefficients were fully normalised.  The convention is decided once, from T(X,Y,Z): the true one unless the value returned matches
+  // the fully-normalised divisor only; that case is reported under its own relation and the remaining comparisons use the library's convention
+  bool useLib = false;
+  auto zon = [&](int n) -> LD { if (n == 0) return 1; if (n % 2 || n > Ne) return 0; LD j = no.Jn(n); LD fac = ((LD)GMref / GMmodel) * powl((LD)aref / amodel, n);
+    return -fac * j / ((full || useLib) ? sqrtl(2.0L * n + 1) : 1); };
+  if (!full && Ne >= 2) {
+    LD R0 = sqrtl(g.X * g.X + g.Y * g.Y + g.Z * g.Z), dz = ((LD)GMref - GMmodel) / GMmodel, f0 = (LD)GMmodel / amodel; LD Tt[2]; double sTt[2];
+    for (int w = 0; w < 2; ++w) { useLib = w == 1;
+      Tt[w] = f0 * hsum(full, Ne, Me, [&](int n, int m) -> LD { return cC(n, m) - (m == 0 ? zon(n) : 0); }, cS, g.X, g.Y, g.Z, (LD)amodel).v - GMmodel * dz / R0;
+      sTt[w] = double(f0 * hsum(full, Ne, Me, [&](int n, int m) -> LD { return n == 0 ? 0 : fabsl(cC(n, m)) + (m == 0 ? fabsl(zon(n)) : 0); }, [&](int n, int m) -> LD { return fabsl(cS(n, m)); }, g.X, g.Y, g.Z, (LD)amodel).mag + fabsl(GMmodel * dz / R0)); }
+    bool okTrue = std::fabs(double((LD)mo.Tp - Tt[0])) <= 1e-12 * sTt[0], okLib = std::fabs(double((LD)mo.Tp - Tt[1])) <= 1e-12 * sTt[1];
+    useLib = !okTrue && okLib;
+    if (useLib) bad("grav-schmidt-normal-zonals", "Schmidt-normalised model: T(X,Y,Z) = " + fmt(mo.Tp) + " but the sum with the Schmidt zonal coefficients J_n of the normal field is " + fmt(double(Tt[0])) +
+                    "; the value equals the sum with J_n/sqrt(2n+1) (" + fmt(double(Tt[1])) + "), the fully normalised coefficients");
+  }
   auto dC = [&](int n, int m) -> LD { return cC(n, m) - (m == 0 ? zon(n) : 0); };
   auto aC = [&](int n, int m) -> LD { return fabsl(cC(n, m)) + (m == 0 ? fabsl(zon(n)) : 0); };
   auto aS = [&](int n, int m) -> LD { return fabsl(cS(n, m)); };
@@ -424,16 +459,9 @@ static Reg r_grav("grav", [](const Args& a) {
   {
     LD Uo = no.U(g.X, g.Y, g.Z); int k2 = (Ne / 2) * 2 + 2;
     double tolU = rel * sW * 4 + double(4 * GMref / R * powl(fabsl(no.e2), k2 / 2) * powl(aref / R, k2));
-    if (full || Ne < 2) {
+    if (!useLib) {
       rep("grav-T-is-W-minus-U", "GravityModel::T(X,Y,Z) vs W - U(normal field, closed form)", mo.Tp, Ww - Uo, tolU);
       rep("grav-T-is-W-minus-U", "GravityCircle::T(lon) vs W - U(normal field, closed form)", ci.Tp, Ww - Uo, tolU);
-    } else {
-      auto dCt = [&](int n, int m) -> LD { return cC(n, m) - (m == 0 ? zonTrue(n) : 0); };
-      LD Ttrue = fV * hsum(full, Ne, Me, dCt, cS, g.X, g.Y, g.Z, (LD)amodel).v - GMmodel * dz0 / R;
-      if (!near(mo.Tp, Ttrue, rel * sT) && near(mo.Tp, Tw, rel * sT))
-        bad("grav-schmidt-normal-zonals", "Schmidt-normalised model: T(X,Y,Z) = " + fmt(mo.Tp) + " but W - U = " + fmt(double(Ww - Uo)) + " (sum with Schmidt zonals of the normal field " + fmt(double(Ttrue)) +
-            "); the library subtracts J_n/sqrt(2n+1) instead of J_n from the Schmidt coefficients");
-      else { rep("grav-T-is-W-minus-U", "GravityModel::T(X,Y,Z) vs W - U(normal field, closed form)", mo.Tp, Ww - Uo, tolU); rep("grav-T-is-W-minus-U", "GravityCircle::T(lon) vs W - U", ci.Tp, Ww - Uo, tolU); }
     }
   }
   // circle = model at each longitude, member by member
@@ -652,17 +680,17 @@ void gv::generate(const std::string& tier, uint64_t seed) {
       for (auto nm : std::vector<std::pair<long, long>>{{2147483647L, 2147483647L}, {46342, 46342}, {46341, 0}, {65536, 65536}, {1000000, 3}, {-1, 0}, {3, 5}, {-2, -2}, {2147483647L, 0}, {46339, 0}, {46340, 1}, {12, 12}, {9, 9}, {-2147483647L - 1, 0}})
         { run("cofbad", {std::to_string(kind), std::to_string(nm.first), std::to_string(nm.second)}); stratum("cofbad"); }
   }
-  for (int i = 0, n = th ? 400 : 60; i < n; ++i) {
+  for (int i = 0, n = th ? 2000 : 200; i < n; ++i) {
     int N = r.irange(0, 60), nmx = r.irange(-1, N), mmx = nmx < 0 ? -1 : r.irange(0, nmx), Ms = r.irange(std::max(0, mmx), N);
     if (r.irange(0, 9) == 0) nmx = N + r.irange(1, 2);
     run("coeff", {std::to_string(N), std::to_string(nmx), std::to_string(mmx), std::to_string(Ms)}); stratum("coeff-random");
   }
   // (2) harmonic sums
-  for (int i = 0, n = th ? 6000 : 700; i < n; ++i) gen_sh(r, 12, true);
-  for (int i = 0, n = th ? 1500 : 250; i < n; ++i) gen_sh(r, 40, false);
-  if (th) for (int i = 0; i < 40; ++i) gen_sh(r, 360, false);
+  for (int i = 0, n = th ? 30000 : 3000; i < n; ++i) gen_sh(r, 12, true);
+  for (int i = 0, n = th ? 8000 : 1200; i < n; ++i) gen_sh(r, 40, false);
+  if (th) for (int i = 0; i < 150; ++i) gen_sh(r, 360, false);
   // (3) magnetic models from synthetic files
-  for (int i = 0, n = th ? 1500 : 150; i < n; ++i) {
+  for (int i = 0, n = th ? 8000 : 600; i < n; ++i) {
     int nmod = r.irange(0, 2) ? 1 : r.irange(2, 4), ncon = r.irange(0, 3) == 0, N = r.irange(1, th ? 20 : 12), M = r.irange(0, 3) ? N : r.irange(0, N);
     double dt0 = r.pick(std::vector<double>{5.0, 1.0, 2.5, 0.5});
     double span = nmod * dt0;
@@ -674,8 +702,12 @@ void gv::generate(const std::string& tier, uint64_t seed) {
     run("mag", {std::to_string(r.next() % 1000000007ULL), std::to_string(r.irange(0, 3) ? 1 : 0), std::to_string(nmod), std::to_string(ncon), std::to_string(N), std::to_string(M), hx(dt0), hx(t), hx(lat), hx(lon), hx(h), std::to_string(Nmax), std::to_string(Mmax)});
     stratum("mag-models" + std::to_string(nmod) + (ncon ? "-const" : "") + "-t" + std::to_string(tk) + (Nmax >= 0 || Mmax >= 0 ? "-trunc" : ""));
   }
+  for (int i = 0, n = first ? 6 : 0; i < n; ++i) {
+    double t = std::vector<double>{1e13, -1e13, INFINITY, -INFINITY, NAN, 2020 + 2147483648.0 * 5}[size_t(i)];
+    run("magx", {std::to_string(r.next() % 1000000007ULL), "1", "2", "0", "4", "4", hx(5.0), hx(t), hx(10.0), hx(20.0), hx(0.0), "-1", "-1"}); stratum("magx-extreme-time");
+  }
   // (4) gravity models from synthetic files
-  for (int i = 0, n = th ? 1500 : 150; i < n; ++i) {
+  for (int i = 0, n = th ? 8000 : 600; i < n; ++i) {
     int N = r.irange(0, 5) ? r.irange(2, th ? 36 : 20) : r.irange(0, 2), M = r.irange(0, 3) ? N : r.irange(0, N);
     double dgm = r.irange(0, 3) ? r.pick(std::vector<double>{1e-5, -1e-5, -7.5e-10, 1e-3, 3e-8}) : 0.0;
     double fl = r.pick(std::vector<double>{1 / 298.257223563, 1 / 298.257223563, 1 / 298.257222101, 0.001, 1 / 150.0});
@@ -687,7 +719,7 @@ void gv::generate(const std::string& tier, uint64_t seed) {
     stratum(std::string("grav") + (dgm != 0 ? "-GMmismatch" : "-GMequal") + (h == 0 ? "-h0" : "") + (Nmax >= 0 ? "-trunc" : ""));
   }
   // (5) normal gravity
-  for (int i = 0, n = th ? 4000 : 400; i < n; ++i) {
+  for (int i = 0, n = th ? 20000 : 1500; i < n; ++i) {
     double a, GM, om, f; int k = r.irange(0, 7);
     switch (k) {
     case 0: a = Constants::WGS84_a(); GM = Constants::WGS84_GM(); om = Constants::WGS84_omega(); f = Constants::WGS84_f(); break;
